@@ -111,3 +111,13 @@ def need(totals, keys):
     missing = [k for k in keys if totals.get(k, 0) == 0]
     if missing:
         raise ToolError("coverage hole: no events of kind %s in this run" % missing)
+
+
+def replay_position(run, pid, cmd, also=()):
+    h = vcommon.build_harness()
+    d = trace_dir(pid + "-replay")
+    vcommon.run_harness(h, ["position", "--out", d, "--cmd", cmd])
+    files = sorted(glob.glob(os.path.join(d, "rules*.ndjson")))
+    results = vcommon.validate_shards("TraceRules", "TraceRules.cfg", files)
+    judge(run, pid, results, also)
+    shutil.rmtree(d, ignore_errors=True)
